@@ -235,6 +235,28 @@ Family ==
 (* every scheme is driven both ways.                                                                                           *)
 Spelling == IF (Len(hist) > 0 /\ (hist[1].p.dt[1] + hist[1].p.al[1] + hist[1].p.be[2] + hist[1].p.ga[2]) % 2 = 1) THEN "name" ELSE "member"
 
+(* ---- the one-step maps as per-dof WEIGHT TABLES (real systems of any size) ---------------------------------------------- *)
+(* New and Eval act dof by dof and are linear in c = (x, u_i, v_i, a_i).  Weights(p) tabulates them on the four unit inputs:   *)
+(* new[j] / eval[j] is the triple <<u, v, a>> answered to the j-th unit input.  `Affine` lets TLC confirm on every step of     *)
+(* every configuration that the tables ARE the maps (the map applied to the dof's data = the combination of the table columns, *)
+(* no constant part); the harness then applies the tables to the vectors of real simulations (Elastic with Rayleigh damping,   *)
+(* Thermal, Beam; hundreds of dofs, several dofs per node): the returned u, v, a must be the `new` combination of the step      *)
+(* unknown and the old state, and K u_t + C v_t + M a_t with the `eval` combination must equal the load on every free dof.     *)
+Unit4(j) == [k \in 1..4 |-> IF k = j THEN One ELSE Zero]
+Weights(p) == [new  |-> [j \in 1..4 |-> LET c == Unit4(j) IN New(p, <<c[2], c[3], c[4]>>, c[1])],
+               eval |-> [j \in 1..4 |-> LET c == Unit4(j) IN Eval(p, <<c[2], c[3], c[4]>>, c[1])]]
+Comb(W, c) == [k \in 1..3 |-> Add(Add(Mul(c[1], W[1][k]), Mul(c[2], W[2][k])), Add(Mul(c[3], W[3][k]), Mul(c[4], W[4][k])))]
+Affine ==
+    hist # <<>> =>
+    LET r == Last  p == r.p  W == Weights(p)  z == <<Zero, Zero, Zero>> IN
+      /\ New(p, z, Zero) = z /\ Eval(p, z, Zero) = z
+      /\ \A i \in {1, 2} :
+            LET c == <<r.x[i], r.pre[1][i], r.pre[2][i], r.pre[3][i]>> IN
+              /\ Comb(W.new, c)  = <<r.post[1][i], r.post[2][i], r.post[3][i]>>
+              /\ Comb(W.eval, c) = <<r.evalv[1][i], r.evalv[2][i], r.evalv[3][i]>>
+(* listed as an invariant only by the configuration that exports the tables (one line per parameter record) *)
+EmitWT == (Emit /\ Len(hist) = 1) => PrintT(<<"WT", ToJson([p |-> hist[1].p, beta |-> Beta(hist[1].p), gamma |-> Gamma(hist[1].p), coefs |-> Coefs(hist[1].p), wt |-> Weights(hist[1].p)])>>)
+
 (* emission of complete behaviours for the replay harness *)
 EmitOK ==
     (Emit /\ Len(hist) = MaxSteps) =>
